@@ -276,7 +276,7 @@ func runC13(t *testing.T, seed uint64, planJSON []byte, tier string) (res *Resul
 	} else {
 		plan = genC13(seed, tier)
 	}
-	res.Harness = runBubble(t, func(t *testing.T) {
+	res.Harness = runBubbleP(t, plan, func(t *testing.T) {
 		log.SetLogger(nopLogger{})
 		codec.Init()
 		sim := simkit.NewSim(simkit.NewTape(seed))
